@@ -47,16 +47,18 @@ CLAIMED = {
         "C15_same_invalid_leaves. Consistency of the links after optimize() and the node count are decided by the correspondence (full node table incl. incoming records) "
         "and the oracle (check_consistency, items count), not by a theorem yet.",
    note=TB + "Modelled: coq/GraphOps.v.", ref="5/C15"),
- "C09": dict(cat="other", tech="model-implementation correspondence from the regex AST + re.fullmatch oracle; Coq language-membership theorem in progress",
-   text="Executable Coq model of regex/parse.py (tree converters, _repeat, optimize, wrapping) from the AST, with the specification relation matches; tied to the "
-        "implementation by printing random ASTs of the dialect to concrete syntax, parsing them with the real lark parser and comparing canonical graph dumps, entries "
-        "and samples; oracle: every sample labelled valid and matched in full by Python re, every literal / class member / range end used. The structural-induction "
-        "theorem (every complete execution of the generated graph yields a string in L(r)) is not closed yet, so proof level is not claimed.",
-   note=TB + "Modelled: coq/Regex.v from the AST; the LALR parser and unescape() only through the correspondence.", ref="5/C09"),
- "C20": dict(cat="proof", tech="Coq proof of the length bounds for every pattern/graph/fuel + correspondence with core/random.py",
+ "C09": dict(cat="proof", tech="Coq proof of language membership by structural induction over the regex AST (builder correctness + C15_sem for optimize) + model-implementation correspondence from the AST + re.fullmatch oracle",
+   text="C09_language: for every expression r of the dialect (any nesting of groups, alternation, classes, quantifiers ? * + {n} {n,} {n,m}) and every complete execution of the graph "
+        "that the model of regex/parse.py builds for r -- tree converters, _repeat, optimize(), input / super-root / output nodes -- the string produced is matched in full by r "
+        "(inductive specification `matches`); C09_leaves_valid and C09_entries: every entry of generate_paths on that graph is labelled valid and its string matches r. "
+        "The coverage half (every literal / class member / range end occurs in some string) follows from C05 once the graph is well-formed (certified per graph) and is also "
+        "checked by the oracle. Tie: random ASTs are printed to concrete syntax, parsed by the real lark parser, and canonical graph dumps, entries and samples are compared with the model.",
+   note=TB + "Modelled: coq/Regex.v from the AST; the LALR parser and unescape() only through the correspondence. The specification `matches` is the standard inductive one; "
+        "its agreement with Python's re is exercised by the re.fullmatch oracle on every sample, not proved.", ref="5/C09"),
+ "C20": dict(cat="proof", tech="Coq proof of the length bounds and of 'contains a match' for every pattern/fuel + correspondence with core/random.py",
    text="C20_length: whenever the model of generate_random_string returns a string its length is within [min, max] for all min, max >= min or absent, all patterns, "
-        "any fuel and either code variant; C20_contract: the assert can only fire outside the contract. The 'contains a match of the pattern' half depends on the "
-        "C09 theorem (in progress) and is currently decided by the re.search oracle and the correspondence stream RS.",
+        "any fuel and either code variant; C20_contract: the assert can only fire outside the contract; C20_contains_match: with a pattern the returned string is "
+        "padding followed by a string the pattern matches in full (via C09_language). Tie: correspondence stream RS; oracle: length bounds, re.search, exception class.",
    note=TB + "Modelled: coq/Regex.v (gen_random_string).", ref="5/C20"),
 }
 
